@@ -676,7 +676,7 @@ func (m *Model) buildMap(named *types.Named, iface string) *MapModel {
 					hasTable = true
 				}
 			}
-			if (hasBucket && hasTable) || (mm.Copy == nil && m.acquiresBucketLock(cal) && !seenFn[cal]) {
+			if (hasBucket && hasTable) || (mm.Copy == nil && hasBucket && m.acquiresBucketLock(cal) && !seenFn[cal]) {
 				mm.Copy = cal
 			}
 		}
